@@ -43,10 +43,14 @@ func (db *SpecDB) add(sf *SpecFile, prefix string, file string) error {
 		db.contracts[key] = c
 	}
 	for _, m := range sf.Macros {
-		if _, dup := db.macros[m.Name]; dup {
+		k := m.Name
+		if prefix != "" {
+			k = prefix + "." + m.Name // macros of a contract file are scoped to its package
+		}
+		if _, dup := db.macros[k]; dup {
 			return fmt.Errorf("%s: duplicate macro %s", file, m.Name)
 		}
-		db.macros[m.Name] = m
+		db.macros[k] = m
 	}
 	for _, u := range sf.UFuncs {
 		db.ufuncs[u.Name] = u
@@ -113,6 +117,18 @@ func (env *SpecEnv) wfRead(t *Term, gt types.Type) {
 	if f := env.x.wf(env.st, t, gt); f != True {
 		env.x.facts = append(env.x.facts, Implies(env.st.pc, f))
 	}
+}
+
+func (env *SpecEnv) macro(name string) *MacroDef {
+	if env.pkg != nil {
+		if m, ok := env.x.specs.macros[env.pkg.Name()+"."+name]; ok {
+			return m
+		}
+	}
+	if m, ok := env.x.specs.macros[name]; ok {
+		return m
+	}
+	return nil
 }
 
 func (env *SpecEnv) with(st *State) *SpecEnv {
@@ -301,7 +317,7 @@ func (env *SpecEnv) evalIdent(e *Expr) SVal {
 	if _, ok := ghostSorts[e.Name]; ok {
 		return SVal{T: env.st.G(e.Name)}
 	}
-	if m, ok := env.x.specs.macros[e.Name]; ok && len(m.Params) == 0 {
+	if m := env.macro(e.Name); m != nil && len(m.Params) == 0 {
 		return env.eval(m.Body)
 	}
 	// package-level constant of the current package
@@ -711,6 +727,17 @@ func (env *SpecEnv) evalCall(e *Expr) SVal {
 			env.errf(e, "now(%s): no reaching definition found", e.Args[0].Name)
 		}
 		return v
+	case "method":
+		// method(recv, name): the method value recv.name as a function value
+		a := env.eval(e.Args[0])
+		if a.GT == nil || e.Args[1].Kind != "id" {
+			env.errf(e, "method(recv, name) needs a typed receiver and a method name")
+		}
+		f := env.x.boundMethod(a.GT, e.Args[1].Name)
+		if f == nil {
+			env.errf(e, "no method value %s.%s is ever taken in /repo", a.GT, e.Args[1].Name)
+		}
+		return SVal{T: Mk(sortFn, Int(int64(env.x.fnID(f))), env.x.boundEnv(env.st, a.T, a.GT))}
 	case "contents":
 		a := env.eval(e.Args[0])
 		if a.T == nil || a.T.Sort != sortSlice || a.GT == nil {
@@ -722,9 +749,9 @@ func (env *SpecEnv) evalCall(e *Expr) SVal {
 		return SVal{T: normArray(row, sOff(a.T), sLen(a.T), et)}
 	case "trim":
 		a := env.eval(e.Args[0])
-		return SVal{T: UF("strings.TrimSpace", sortStr, a.T), GT: a.GT}
+		return SVal{T: trimSpaceTerm(a.T), GT: a.GT}
 	}
-	if m, ok := env.x.specs.macros[e.Name]; ok {
+	if m := env.macro(e.Name); m != nil {
 		if len(m.Params) != len(e.Args) {
 			env.errf(e, "macro %s: %d args, want %d", e.Name, len(e.Args), len(m.Params))
 		}
